@@ -5,7 +5,7 @@ from mc.core import Check
 from mc import syncmodel
 
 OPS = [("put", 1, None), ("put", 0, "td"), ("put", 2, None), ("put_nowait", 3), ("put_nowait", 0),
-       ("get", None), ("get", "td"), ("get_nowait",), ("task_done",), ("join", None), ("join", "td"),
+       ("get", None), ("get", "td"), ("get", "zero"), ("get_nowait",), ("task_done",), ("join", None), ("join", "td"),
        ("cancel", 0), ("cancel", -1), ("adv",)]
 KINDS = ("fifo", "lifo", "prio")
 
